@@ -41,24 +41,21 @@ def row(vector):
 
 class HashArray(np.ndarray):
     def __new__(cls, val):
-        """Create a new hashable array"""
+        """Create a new hashable array
 
-        obj = np.asarray(val).view(cls)
+        The hashable array owns a copy of the values. It is used as key in memoization tables, so it must not change
+        when the array of the caller changes, and the array of the caller must stay as it is (writeable).
+        """
+        obj = np.array(val, subok=False).view(cls)
         obj.flags.writeable = False
         return obj
 
-    def __array_finalize__(self, obj):
-        """Called automatically when a new HashArray is created"""
-        if obj is None:
-            return
-
-        obj.flags.writeable = False
-
     def __hash__(self):
-        return hash(self.tobytes())
+        return hash((self.shape, self.dtype.str, self.tobytes()))
 
     def __eq__(self, other):
-        return self.data.tobytes() == other.data.tobytes()
+        other = np.asarray(other)
+        return self.shape == other.shape and self.dtype == other.dtype and self.tobytes() == other.tobytes()
 
 
 def hashable(func):
@@ -87,6 +84,9 @@ def hashable(func):
         for k, v in kwargs.items():
             if isinstance(v, np.ndarray):
                 kwargs[k] = HashArray(v)
-        return func(*new_args_list, **kwargs)
+
+        # Hand out a copy, the memoized array must not be changed by the caller
+        result = func(*new_args_list, **kwargs)
+        return result.copy() if isinstance(result, np.ndarray) else result
 
     return wrapper
